@@ -21,6 +21,7 @@ type termCase struct {
 	Cfg   gen.AsmConfig
 	Text  string
 	Class string
+	Par   int // >1: that many simultaneous assemblies of the text (the property holds however many run at once)
 }
 
 var (
@@ -53,8 +54,10 @@ func worker(t testing.TB) *wk.Client {
 
 const (
 	expansionBound = 2e4
-	caseDeadline   = 5 * time.Second
-	confirmFactor  = 6
+	// the rare class "large expansion" is judged with a deadline and a heap cap that grow with its own estimate
+	largeExpansionBound = 2e6
+	caseDeadline        = 5 * time.Second
+	confirmFactor       = 6
 )
 
 func presetCfg(t *rapid.T) gen.AsmConfig {
@@ -219,6 +222,19 @@ func genTermCase(t *rapid.T) termCase {
 			c.Text = gen.MutateSource(t, c.Text, other)
 		}
 	}
+	if gen.Rare(t, "largeexp", 10) {
+		// one FOR block (or two nested ones) that expands to hundreds of thousands of lines
+		c.Class = "large_expansion"
+		n := rapid.SampledFrom([]int{400000, 349526, 360000, 100000}).Draw(t, "bigcount")
+		if gen.Rare(t, "nestedbig", 2) {
+			c.Text = fmt.Sprintf("i for %d\nj for %d\ndat i, j\nrof\nrof\ndat 0\n", n/600+1, 600)
+		} else {
+			c.Text = fmt.Sprintf("idx for %d\ndat idx\nrof\n%s", n, rapid.SampledFrom([]string{"", "dat 0\n", "x equ 1\ndat x\n"}).Draw(t, "bigtail"))
+		}
+	}
+	if gen.Rare(t, "par", 2) {
+		c.Par = rapid.SampledFrom([]int{4, 2, 8}).Draw(t, "parn")
+	}
 	return c
 }
 
@@ -231,7 +247,7 @@ func request(c termCase) wk.Request {
 	} else if c.Cfg.NOP94 {
 		mode = 1
 	}
-	return wk.Request{Mode: mode, M: uint64(c.Cfg.CoreSize), P: uint64(c.Cfg.Processes), L: uint64(c.Cfg.Length), D: uint64(c.Cfg.Distance), Text: []byte(c.Text)}
+	return wk.Request{Mode: mode, M: uint64(c.Cfg.CoreSize), P: uint64(c.Cfg.Processes), L: uint64(c.Cfg.Length), D: uint64(c.Cfg.Distance), Text: []byte(c.Text), Par: c.Par}
 }
 
 func judgeTermCase(t testing.TB) func(c termCase, rec *hx.Rec) string {
@@ -240,14 +256,23 @@ func judgeTermCase(t testing.TB) func(c termCase, rec *hx.Rec) string {
 			return ""
 		}
 		est := rc.EstimateExpansion(c.Text, c.Cfg.RC())
-		if math.IsInf(est, 1) || est > expansionBound {
+		bound := float64(expansionBound)
+		deadline := caseDeadline
+		rq := request(c)
+		if c.Class == "large_expansion" {
+			bound = largeExpansionBound
+			deadline = 4*caseDeadline + time.Duration(est*100)*time.Microsecond
+			rq.CapMiB = 512 + int(est*1500/(1<<20))
+			rq.Par = 0
+		}
+		if math.IsInf(est, 1) || est > bound {
 			if rec != nil {
 				rec.Discard("expansion_estimate_above_bound")
 			}
 			return ""
 		}
 		cl := worker(t)
-		rs, st, err := cl.Call(request(c), caseDeadline)
+		rs, st, err := cl.Call(rq, deadline)
 		if err != nil {
 			panic("INCOMPLETE: " + err.Error())
 		}
@@ -255,7 +280,7 @@ func judgeTermCase(t testing.TB) func(c termCase, rec *hx.Rec) string {
 		case wk.Timeout:
 			if !hangSeen {
 				// confirm alone in a fresh worker with a much longer deadline
-				rs2, st2, _ := cl.Call(request(c), confirmFactor*caseDeadline)
+				rs2, st2, _ := cl.Call(rq, confirmFactor*deadline)
 				if st2 == wk.OK {
 					if rec != nil {
 						rec.Discard(fmt.Sprintf("slow_inconclusive_%dms", rs2.ElapsedUs/1000))
@@ -265,9 +290,9 @@ func judgeTermCase(t testing.TB) func(c termCase, rec *hx.Rec) string {
 				hangSeen = true
 			}
 			expensive(c.Text)
-			return fmt.Sprintf("CompileWarrior did not return within %v (expansion estimate %.0f tokens): hang\nsource: %q", caseDeadline, est, c.Text)
+			return fmt.Sprintf("CompileWarrior did not return within %v (expansion estimate %.0f tokens): hang\nsource: %q", deadline, est, clip(c.Text))
 		case wk.Died:
-			rs2, st2, _ := cl.Call(request(c), confirmFactor*caseDeadline)
+			rs2, st2, _ := cl.Call(rq, confirmFactor*deadline)
 			if st2 == wk.OK && !rs2.OOM {
 				rs = rs2 // the worker had died for another reason; judge the retry
 			} else {
@@ -288,6 +313,9 @@ func judgeTermCase(t testing.TB) func(c termCase, rec *hx.Rec) string {
 		if !rs.HasErr && rs.CodeNil {
 			return fmt.Sprintf("neither an error nor a warrior (Code is nil)\nsource: %q", c.Text)
 		}
+		if rs.ParDiffer != "" {
+			return fmt.Sprintf("%d simultaneous assemblies of the same text disagree: %s\nsource: %q", c.Par, clip(rs.ParDiffer), c.Text)
+		}
 		if len(rs.Leaked) > 0 {
 			return fmt.Sprintf("%d goroutine(s) left behind after CompileWarrior returned (err=%q); first survivor:\n%s\nsource: %q", len(rs.Leaked), rs.Err, clip(rs.Leaked[0]), c.Text)
 		}
@@ -301,6 +329,9 @@ func judgeTermCase(t testing.TB) func(c termCase, rec *hx.Rec) string {
 				cls = append(cls, "rejected")
 			} else {
 				cls = append(cls, "accepted")
+			}
+			if c.Par > 1 {
+				cls = append(cls, "simultaneous_assemblies")
 			}
 			if rs.ElapsedUs > 50000 {
 				cls = append(cls, "slower_than_50ms")
